@@ -53,6 +53,13 @@ def corpus():
         ('put-unknown-provider-new-consumer', base, ('alloc_put', 39, cons(3, None, [(1, [(0, 2)]), (5, [(0, 1)])]))),
         ('post-two-consumers', base, ('alloc_post', 39, [cons(2, 1, [(1, [(0, 1)])]), cons(3, None, [(1, [(0, 1)]), (2, [(0, 2)])])])),
         ('post-conflict-after-create', base, ('alloc_post', 39, [cons(3, None, [(1, [(0, 1)])]), cons(2, 7, [(1, [(0, 1)])])])),
+        # a move (one consumer emptied, another written) in one POST, at 1.39 and at versions without consumer generations
+        ('post-move', base, ('alloc_post', 39, [cons(2, 1, []), cons(3, None, [(2, [(0, 1)])])])),
+        ('post-move-1.27', base, ('alloc_post', 27, [cons(2, 1, []), cons(3, None, [(2, [(0, 1)])])])),
+        ('post-move-1.13', base, ('alloc_post', 13, [cons(3, None, [(1, [(0, 1)])]), cons(2, 1, [])])),
+        ('post-move-over-capacity-1.27', base, ('alloc_post', 27, [cons(2, 1, []), cons(3, None, [(2, [(0, 9)])])])),
+        ('put-existing-consumer-1.27', base, ('alloc_put', 27, cons(2, 1, [(1, [(0, 3)])]))),
+        ('put-existing-consumer-1.0', base, ('alloc_put', 0, cons(2, 1, [(1, [(0, 3)])]))),
         ('alloc-delete', base, ('alloc_delete', 2)),
         ('alloc-delete-three-providers', base + [('inv_set', 39, 3, 0, [inv(0, 4)]),
                                                  ('alloc_put', 39, cons(4, None, [(1, [(0, 1), (2, 5)]), (2, [(0, 1)]), (3, [(0, 2)])]))],
